@@ -4,6 +4,10 @@ import json, os
 V = os.path.dirname(os.path.dirname(os.path.abspath(__file__)))
 
 CHECKS = {
+    'C04': ('hole-provenance and sibling-agreement rules over the output grammar (syn-based abstract interpreter) + MIR rules on the group-map construction',
+            'Structural clauses decided for every template of the bind-group section: resource-struct fields, BindGroupEntry list and layout-entry list range over the same unfiltered binding list of the same group; field name and `bindings.<name>` come from the same element, `binding:` is that element\'s binding_index (never a position), resource kind partition agrees with the field type partition; all names agree on the group key (impl, descriptor definition/uses, from_bindings parameter, set index); BindGroups/set_bind_groups/pipeline layout range over every key of the same ordered map unadapted; SetBindGroup has exactly the three forwarding impls. The map construction (key = group, element from one variable) is decided by the C11 MIR rules in the same run.',
+            'Trusted: Engine A semantics; wgpu behind create_bind_group/set_bind_group; C11 density contract (position == index).',
+            'DESIGN.md section 3 C04'),
     'C05': ('hole-provenance rules on the layout-assertion templates (syn-based abstract interpreter) + gate truth table',
             'Structural clauses on the extracted assertion templates: one offset assertion per emitted field (same member list and filter), expected number = StructMember.offset of the same member, offset_of!(this struct, that member); size assertion against Layouter[this type handle].size (layouter updated with this module) or the type\'s own size; assertions present iff derive_bytemuck_host_shareable && membership of the handle in the closure set seeded from every module-scope variable. With rustc\'s const evaluation this makes every compiling struct match naga\'s WGSL layout numbers.',
             'Trusted: naga computes the WGSL layout (offsets/sizes); rustc const-evaluates assertions and lays out repr(C) as specified; Engine A semantics. The suite pins the reachable rows by snapshots, so the added value is mainly the one-to-one/identity provenance.',
